@@ -165,7 +165,7 @@ func c02(r *ev.Run, replay string) {
 		r.Inconclusive("witnesses/C02.json: " + err.Error())
 	}
 	n := r.N(300, 500)
-	shards := r.N(1, 8)
+	shards := r.N(3, 8)
 	var wg sync.WaitGroup
 	sem := make(chan struct{}, 12)
 	modes := map[string]string{}
